@@ -181,10 +181,14 @@ fn resolve_renamed(
 ) -> Option<String> {
     let name_map = serde_renamed.get(id)?;
 
-    // Find in imports.
-    import_types
-        .iter()
-        .filter(|i| i.type_name == id)
+    // Find in imports. `import_types` is a hash set shared by all files of the crate: when the
+    // name is imported from several crates, try them in crate-name order so that the choice
+    // does not depend on the per-process hash seed.
+    let mut candidates: Vec<&ImportedType> =
+        import_types.iter().filter(|i| i.type_name == id).collect();
+    candidates.sort_by(|a, b| a.base_crate.cmp(&b.base_crate));
+    candidates
+        .into_iter()
         .find_map(|import_ref| name_map.get(&import_ref.base_crate))
         // Fallback to looking up in our current namespace.
         .or_else(|| name_map.get(crate_name))
